@@ -24,6 +24,17 @@ Qed.
 Lemma chip_eqb_refl : forall a, chip_eqb a a = true.
 Proof. intros a. apply chip_eqb_eq. reflexivity. Qed.
 
+Lemma cassoc_Some_In : forall (cs : list (chip * chip_st)) k c, cassoc k cs = Some c -> In (k, c) cs.
+Proof.
+  induction cs as [|[k' c'] cs IH]; intros k c H; [discriminate|]. cbn [cassoc] in H.
+  destruct (chip_eqb k k') eqn:E.
+  - apply chip_eqb_eq in E. subst k'. inversion H; subst. left. reflexivity.
+  - right. apply IH. exact H.
+Qed.
+
+Lemma cassoc_Some_key : forall (cs : list (chip * chip_st)) k c, cassoc k cs = Some c -> In k (map fst cs).
+Proof. intros cs k c H. apply in_map_iff. exists (k, c). split; [reflexivity|apply cassoc_Some_In; exact H]. Qed.
+
 Lemma broadcast_keys : forall deaf f cs, map fst (broadcast deaf f cs) = map fst cs.
 Proof.
   intros deaf f cs. unfold broadcast. rewrite map_map. apply map_ext. intros e.
